@@ -860,7 +860,7 @@ def extract_pool_locking(repo, parents):
             if isinstance(child, (ast.Expr, ast.Assign, ast.AugAssign)):
                 txt = ast.unparse(child)
                 mutates = any(frag in txt for frag in ("._connections.append(", "._connections.remove(", "._requests.append(", "._requests.remove(",
-                                                       "._assign_requests_to_connections()")) or \
+                                                       "._assign_requests_to_connections()", ".clear_connection()")) or \
                     (isinstance(child, ast.Assign) and ast.unparse(child.targets[0]) in ("self._connections", "self._requests"))
                 if mutates:
                     rows.append((fname, txt.replace('"', "'")[:80], l))
